@@ -804,7 +804,9 @@ var mlAttacks = []mlAttack{
 		if err != nil {
 			return nil, nil, nil, nil, err
 		}
-		r, err := a.ReissueCSCA(func(ct *issuer.CertTemplate) { ct.BasicConstraints = &issuer.BasicConstraints{CA: false, Critical: true} })
+		r, err := a.ReissueCSCA(func(ct *issuer.CertTemplate) {
+			ct.BasicConstraints = &issuer.BasicConstraints{CA: false, Critical: true}
+		})
 		if err != nil {
 			return nil, nil, nil, nil, err
 		}
